@@ -1,3 +1,5 @@
+//go:build verif_c19
+
 package main
 
 // C19 — date/time <-> serial number. Transcript ops (see lean/XlModel/Drv/C19.lean):
